@@ -50,6 +50,7 @@ type Result struct {
 	Sample     any            `json:"sample,omitempty"`
 	Trace      []string       `json:"trace,omitempty"`
 	Checks     int            `json:"checks"` // number of oracle comparisons performed
+	Cover      []string       `json:"cover,omitempty"`
 }
 
 func (r *Result) Violate(sig, format string, args ...any) {
